@@ -13,7 +13,7 @@ HARNESS = {
     "C01": "c01_c02_matching", "C02": "c01_c02_matching", "C03": "c03_frame", "C04": "c04_ap", "C05": "c05_clear",
     "C06": "c06_scores", "C07": "c07_frames", "C08": "c08_monotone", "C09": "c09_heading", "C10": "c10_filter",
     "C11": "c11_classification", "C12": "c12_sensing", "C13": "c13_manager", "C14": "c14_labels",
-    "C15": "c15_config", "C17": "c17_lookup", "C18": "c18_transform", "C19": "c19_analysis", "C20": "c20_enums",
+    "C15": "c15_config", "C16": "c16_loader", "C17": "c17_lookup", "C18": "c18_transform", "C19": "c19_analysis", "C20": "c20_enums",
 }
 
 
